@@ -35,13 +35,14 @@ type Task struct {
 
 // Sched is the scheduler of one run.
 type Sched struct {
-	mu     sync.Mutex
-	byGoid map[uint64]*Task
-	all    []*Task
-	parked []*Task // runnable
-	nextID int
-	notify chan struct{}
-	cur    *Task
+	mu       sync.Mutex
+	byGoid   map[uint64]*Task
+	all      []*Task
+	parked   []*Task // runnable
+	nextID   int
+	notify   chan struct{}
+	cur      *Task
+	sleepers atomic.Int64
 
 	// choice source
 	rng        *rand.Rand
@@ -288,9 +289,16 @@ func Sleep(d time.Duration) {
 		return
 	}
 	t := s.Cur()
-	time.AfterFunc(d, func() { s.MakeRunnable(t) })
+	s.sleepers.Add(1)
+	time.AfterFunc(d, func() { s.sleepers.Add(-1); s.MakeRunnable(t) })
 	s.Block(t, "sleep")
 }
+
+// Sleepers is the number of tasks inside Sleep (simulated I/O latency in progress): work that is neither
+// runnable nor a simulator event, but will continue by itself.
+//
+//go:norace
+func (s *Sched) Sleepers() int { return int(s.sleepers.Load()) }
 
 // Block parks the current task without making it runnable. The caller has registered t
 // somewhere from where MakeRunnable will be called.
